@@ -35,6 +35,22 @@ PROPS["C16"] = {
     "technique": "Lean 4 refinement proof (model of Resolve = inductive RFC 6901 evaluation relation); model=code by differential correspondence",
 }
 
+PROPS["C18"] = {
+    "lean_modules": ["Ogen.Props.C18"],
+    "suites": ["c18"],
+    "trusted_base": [
+        KERNEL + "; Mathlib (ℚ, zpow, Nat.digits) in JsonNumberValue_proof/JsonNumberLadder_proof and one Batteries lemma in JsonEqualEquiv_proof, all kernel-checked",
+        HARNESS,
+        "statements in lean/Ogen/Props/C18.lean; spec SameValue / valS / WFJ (JsonEqualStruct_proof, JsonNumberLadder_proof)",
+        "model jsonEqual (JsonEqualGeneric_model + JsonNumberModel, core-only) is hand-written from json/equal.go, EnumDup.scan from jsonschema/parser.go parse1; tie = differential run on texts printed from random ASTs (re-spellings, near-equal mutants, independent values, duplicate-key stream) + all ordered pairs of a sign×int×frac×exp grid of number spellings + enum lists through parser.Parse",
+        "jx's tokenizer/decoder (whitespace, string unescaping, number token boundaries) and math/big.Rat parsing are modelled by the AST abstraction, not verified; malformed texts are checked on the implementation only (never 'true')",
+    ],
+    "assumptions": ["texts denote values only if member names are unique (RFC 8259 leaves duplicates undefined) and strings are valid Unicode (jx replaces lone surrogates by U+FFFD)", "|exponent| small enough for big.Rat (math/big refuses beyond 10^6)"],
+    "level_text": "full on well-formed texts: eq_iff (Equal ⇔ same JSON value with numbers as exact rationals and objects as unordered maps), reflexive/symmetric/transitive, number ladder = rational equality, enum_dup_iff; all over ASTs of any size. The text layer is tied differentially; malformed texts are an implementation-only stream.",
+    "level_note": "trusted: Lean kernel (+Mathlib/Batteries lemmas it checks), statements/specs, AST abstraction of jx's text layer, differential tie, harness.",
+    "technique": "Lean 4 proof that the comparison algorithm decides a denotational SameValue relation (ℚ for numbers); model=code by differential correspondence on printed ASTs",
+}
+
 # properties not claimed, with the reason (kept current; see DESIGN.md §7)
 NOT_CLAIMED = {
     "C10": "not applicable: determinism/race-freedom of generation lives in Go map iteration order, goroutine scheduling and the memory model; no executable model separate from the runtime can express it (DESIGN.md §7)",
